@@ -52,6 +52,7 @@ type Chan struct {
 }
 
 type timer struct {
+	harness bool // created by verifrt.Sleep: never fired early by the delay-bounded scheduler
 	when    int64
 	seq     int64
 	fn      func()
@@ -72,6 +73,7 @@ type Sched struct {
 	timers   []*timer
 	seq      int64
 	preempts int
+	delays   int
 	hostWG   sync.WaitGroup
 	aborting bool
 	done     chan struct{}
@@ -190,30 +192,40 @@ func (s *Sched) pickOrAdvance(from *G) *G {
 			if s.w.ex.Cfg.SymSched && len(rs) > 1 {
 				return rs[s.w.path.choose(len(rs))]
 			}
+			// delay-bounded scheduling: deviate from the deterministic choice (the first
+			// runnable goroutine) by skipping i goroutines, at the cost of i delays; the
+			// earliest pending timer may also fire "early" (at the cost of one delay more
+			// than skipping every runnable goroutine)
+			if left := s.w.ex.Cfg.Delays - s.delays; left > 0 {
+				options := len(rs)
+				// (only timers due within one second: a goroutine that is runnable but
+				// does not get the CPU for longer than that is not considered)
+				et := s.earliestTimer()
+				timerOpt := et != nil && !et.harness && et.when-s.now <= 1e9
+				if timerOpt {
+					options++
+				}
+				if options > left+1 {
+					options = left + 1
+				}
+				if options > 1 {
+					i := s.w.path.choose(options)
+					s.delays += i
+					if i >= len(rs) {
+						// fire the earliest timer although goroutines are runnable
+						s.fireEarliest()
+						continue
+					}
+					return rs[i]
+				}
+			}
 			return rs[0]
 		}
-		// fire the earliest timer
-		var best *timer
-		for _, t := range s.timers {
-			if t.stopped || t.fired {
-				continue
-			}
-			if best == nil || t.when < best.when || (t.when == best.when && t.seq < best.seq) {
-				best = t
-			}
-		}
-		if best == nil {
+		// nobody runnable: fire the earliest timer
+		if s.earliestTimer() == nil {
 			return s.deadlock(from)
 		}
-		if best.when > s.now {
-			s.now = best.when
-		}
-		if s.now > s.w.ex.Cfg.MaxVirtualNs {
-			s.w.ex.noteInconclusive("virtual time budget exhausted")
-			s.w.path.abort(OutInconclusive, "virtual time budget")
-		}
-		best.fired = true
-		best.fn()
+		s.fireEarliest()
 		// compact
 		if len(s.timers) > 64 {
 			var keep []*timer
@@ -225,6 +237,35 @@ func (s *Sched) pickOrAdvance(from *G) *G {
 			s.timers = keep
 		}
 	}
+}
+
+func (s *Sched) earliestTimer() *timer {
+	var best *timer
+	for _, t := range s.timers {
+		if t.stopped || t.fired {
+			continue
+		}
+		if best == nil || t.when < best.when || (t.when == best.when && t.seq < best.seq) {
+			best = t
+		}
+	}
+	return best
+}
+
+func (s *Sched) fireEarliest() {
+	best := s.earliestTimer()
+	if best == nil {
+		return
+	}
+	if best.when > s.now {
+		s.now = best.when
+	}
+	if s.now > s.w.ex.Cfg.MaxVirtualNs {
+		s.w.ex.noteInconclusive("virtual time budget exhausted")
+		s.w.path.abort(OutInconclusive, "virtual time budget")
+	}
+	best.fired = true
+	best.fn()
 }
 
 func (s *Sched) deadlock(from *G) *G {
@@ -281,6 +322,35 @@ func (s *Sched) waitUntil(g *G, what string, cond func() bool) {
 // preempt the running goroutine here (bounded number of preemptions).
 func (s *Sched) point(g *G) {
 	cfg := &s.w.ex.Cfg
+	if !cfg.SymSched && cfg.Delays-s.delays > 0 && cfg.DelayPreempt {
+		// delay-bounded: at a synchronisation point the running goroutine may be delayed
+		// behind the next runnable one (cost: one delay)
+		var others []*G
+		for _, o := range s.runnable() {
+			if o != g {
+				others = append(others, o)
+			}
+		}
+		if len(others) == 0 {
+			return
+		}
+		if s.w.path.choose(2) == 0 {
+			return
+		}
+		s.delays++
+		next := others[0]
+		g.state = gRunnable
+		next.state = gRunning
+		next.ready = nil
+		s.cur = next
+		next.wake <- struct{}{}
+		<-g.wake
+		if s.aborting {
+			panic(abortPath{"path ended"})
+		}
+		g.state = gRunning
+		return
+	}
 	if !cfg.SymSched || s.preempts >= cfg.MaxPreempt {
 		return
 	}
@@ -321,13 +391,16 @@ func (s *Sched) addTimer(d int64, fn func()) *timer {
 	return t
 }
 
-func (s *Sched) sleep(g *G, d int64) {
+func (s *Sched) sleep(g *G, d int64) { s.sleepH(g, d, false) }
+
+func (s *Sched) sleepH(g *G, d int64, harness bool) {
 	if d <= 0 {
 		s.point(g)
 		return
 	}
 	woken := false
-	s.addTimer(d, func() { woken = true })
+	t := s.addTimer(d, func() { woken = true })
+	t.harness = harness
 	s.waitUntil(g, fmt.Sprintf("sleep %dns", d), func() bool { return woken })
 }
 
